@@ -119,6 +119,7 @@ pub fn run(o: &Opts) -> Report {
     let draws = if o.thorough() { 12 } else { 2 };
     let muts = if o.thorough() { 40 } else { 6 };
     for &code in SUPPORTED.iter() {
+        let mut type_pairs_done = false;
         for (_, name, path) in scs.iter().filter(|s| s.0 == code) {
             let Some(schema) = scen::load(path) else { continue };
             for d in 0..draws {
@@ -152,6 +153,30 @@ pub fn run(o: &Opts) -> Report {
                     }
                     for (d1, m1) in crate::c04::charge_mutants(code, &j) {
                         cases.push((vec![d1], m1, 2));
+                    }
+                    // every pair of single mutants that violate *different* rules, composed (first scenario of the type):
+                    // messages with two or more violated rule groups, where stop-on-first and the full list differ
+                    if !type_pairs_done {
+                        type_pairs_done = true;
+                        let singles = crate::c04::single_mutants(&j);
+                        let mut violating: Vec<(String, Value, Vec<String>)> = Vec::new();
+                        for (d1, m1) in &singles {
+                            let codes: Option<Vec<String>> = with_mt!(code, T => serde_json::from_value::<SwiftMessage<T>>(m1.clone()).ok().map(|m| m.fields.validate_network_rules(false).iter().map(|e| e.error_code().to_string()).collect()), None);
+                            if let Some(c) = codes {
+                                if !c.is_empty() && !violating.iter().any(|v| v.2 == c) {
+                                    violating.push((d1.clone(), m1.clone(), c));
+                                }
+                            }
+                        }
+                        for (d1, m1, c1) in &violating {
+                            let s2 = crate::c04::single_mutants(m1);
+                            for (d2, _, c2) in &violating {
+                                if c1 == c2 { continue; }
+                                if let Some((_, m2)) = s2.iter().find(|x| &x.0 == d2) {
+                                    cases.push((vec![d1.clone(), d2.clone()], m2.clone(), 1));
+                                }
+                            }
+                        }
                     }
                 }
                 for (desc, jj, mode) in cases {
